@@ -179,6 +179,9 @@ type driver struct {
 	root string
 	nw   int
 	lin  *os.File // NDJSON for StoreConcTrace.tla
+	// dead: a schedule or program ended abnormally and may have left goroutines behind that still emit
+	// markers; nothing recorded afterwards could be trusted, so nothing more is run
+	dead bool
 }
 
 const opWatchdog = 150 * time.Second
@@ -306,6 +309,9 @@ type progCfg struct {
 var writerKinds = []string{"PutODSQ4", "PutODS", "RemoveODSQ4", "RemoveQ4"}
 
 func (d *driver) runProgram(blocks []*block, cfg progCfg) {
+	if d.dead {
+		return
+	}
 	d.nw++
 	w, err := newWorld(d.root, d.nw, blocks, cfg.C1, cfg.C2)
 	if err != nil {
@@ -348,10 +354,12 @@ func (d *driver) runProgram(blocks []*block, cfg progCfg) {
 	if !ok {
 		d.reportHang(cfg.ID, dump)
 		rec.stop()
+		d.dead = true
 		return
 	}
 	if !d.waitClosers(cfg.ID) {
 		rec.stop()
+		d.dead = true
 		return
 	}
 	evs := rec.snapshot()
@@ -364,6 +372,7 @@ func (d *driver) runProgram(blocks []*block, cfg progCfg) {
 	if cycle != nil {
 		if d.forceDeadlock(w, cfg.ID, cycle) {
 			rec.stop()
+			d.dead = true
 			return // the world is dead-locked for good
 		}
 	}
@@ -485,9 +494,16 @@ func (d *driver) waitClosers(id string) bool {
 		}
 		if time.Now().After(deadline) {
 			// all readers have closed their handles, yet an evicted/removed entry is never closed
+			var hist []event
+			for _, x := range evs {
+				if pending[x.Acc] {
+					hist = append(hist, x)
+				}
+			}
+			buf := make([]byte, 1<<20)
 			d.rep.Violate("C08/files-not-released/evicted-entry-never-closed",
 				fmt.Sprintf("%s: %d cache entries were evicted/removed, all handles are closed, but their accessors were not closed within 90s", id, len(pending)),
-				map[string]any{"prog": id})
+				map[string]any{"prog": id, "entry_events": hist, "stacks": string(buf[:runtime.Stack(buf, true)])})
 			return false
 		}
 		time.Sleep(20 * time.Millisecond)
@@ -545,10 +561,18 @@ func (d *driver) monitorCache(id string, evs []event) {
 				d.rep.Violate("C08/double-close/cache-entry", fmt.Sprintf("%s: the accessor of a cache entry was closed twice", id), map[string]any{"prog": id, "seq": e.Seq})
 			}
 			s.closed = true
-			if (e.Refs != 0 || s.handles != 0) && !s.timeout {
+			// e.Refs is the counter read atomically inside the marker; the marker ORDER of a ref- and of
+			// the close it wakes up is not reliable (the counter drops before its marker is recorded)
+			if e.Refs != 0 && !s.timeout {
+				var hist []event
+				for _, x := range evs {
+					if x.Acc == e.Acc {
+						hist = append(hist, x)
+					}
+				}
 				d.rep.Violate("C08/use-after-close/closed-with-references",
 					fmt.Sprintf("%s: the accessor of a cache entry was closed while %d references (%d handles) were still open and no time-out had fired", id, e.Refs, s.handles),
-					map[string]any{"prog": id, "seq": e.Seq})
+					map[string]any{"prog": id, "seq": e.Seq, "entry_events": hist})
 			}
 		}
 	}
@@ -586,8 +610,9 @@ func (d *driver) monitorLin(w *world, cfg progCfg, evs []event) map[uint64]strin
 		switch e.Ev {
 		case "call":
 			cur[e.G] = e
-		case "put.cached":
-			if b != nil {
+			// a put publishes its in-memory accessor to the cache before it takes the locks (and before
+			// its put.cached marker is recorded): in flight from the call to the lock
+			if b != nil && !b.Ref.Empty && (e.Path == "PutODSQ4" || e.Path == "PutODS") {
 				inflight[e.H]++
 				cachedBy[e.G] = true
 			}
@@ -890,11 +915,12 @@ func TestDriver(t *testing.T) {
 		cfg.ID += fmt.Sprintf("/c1=%d,c2=%d,w=%d", cfg.C1, cfg.C2, cfg.Workers)
 		d.runProgram(blocks, cfg)
 		runtime.GC() // explicit collections between programs only (finalizers of dead programs may run here)
-		if len(rep.Violations) > 40 {
+		if len(rep.Violations) > 40 || d.dead {
 			break
 		}
 	}
 	rep.Set("seed", seed)
+	rep.Set("aborted_early", d.dead)
 }
 
 type storeAccessor = eds.AccessorStreamer
